@@ -76,6 +76,29 @@ type Leaf struct {
 // did not depend on it).
 func (l *Leaf) Get(atom string) string { return l.AssignM[atom] }
 
+// Rewrite applies f to every rendered text of the leaf (atoms, calls, returns): used to give the fields of an object
+// the names of the values they were built from.
+func (l *Leaf) Rewrite(f func(string) string) {
+	for i := range l.Assign {
+		l.Assign[i] = f(l.Assign[i])
+	}
+	m := map[string]string{}
+	for k, v := range l.AssignM {
+		m[f(k)] = v
+	}
+	l.AssignM = m
+	for i := range l.Calls {
+		l.Calls[i] = f(l.Calls[i])
+	}
+	for i, r := range l.Returns {
+		if r != nil {
+			cp := *r
+			cp.S = f(cp.S)
+			l.Returns[i] = &cp
+		}
+	}
+}
+
 // DTConfig configures an extraction.
 type DTConfig struct {
 	// Domains gives finite integer domains for atoms compared with constants,
